@@ -86,7 +86,13 @@ static Plan gen_shape(u64 seed) {
             u32 sel = r.below(100);
             if (sel < 35) { f = gen_code_fault(r, *fi); if (f.a.empty()) sel = 100; }
             else if (sel < 45) { f = gen_loop_fault(r, *fi); if (f.a.empty()) sel = 100; }
-            else if (sel < 53) { f = gen_gid_fault(r, *fi, g_pool.info[font].cps); if (f.a.empty()) sel = 100; else sel = 0; }
+            else if (sel < 53) {
+                // re-map a character that the texts of this font really use (frequency-weighted), not a random cmap entry
+                std::vector<u32> cand; const FontInfo &in = g_pool.info[font];
+                if (!in.texts.empty()) { const std::vector<u32> &tf = g_pool.files[size_t(r.pick(in.texts))]; for (int q = 0; q < 6; ++q) { u32 c = tf[r.below(u32(tf.size()))]; if (c != ' ') cand.push_back(c); } }
+                if (cand.empty()) cand = in.cps;
+                f = gen_gid_fault(r, *fi, cand); if (f.a.empty()) sel = 100; else sel = 0;
+            }
             if (sel >= 53) {
                 for (int t = 0; t < 10; ++t) { f = gen_store_fault(r, *fi); if (f.kind == "BITROT" || f.kind == "SETBYTES" || f.kind == "TORN" || (f.kind == "TRUNCATE" && r.chance(1, 4))) break; }
                 if (!(f.kind == "BITROT" || f.kind == "SETBYTES" || f.kind == "TORN" || f.kind == "TRUNCATE")) continue;
